@@ -222,14 +222,14 @@ struct Runner {
             else if ( args.mode == "pct" ) {
                 sc.mode = M_PCT;
                 sc.pct_depth = 1 + unsigned( r.below( 3 ));
-                sc.est_len = 60 * unsigned( c.threads ) * unsigned( c.nops > 0 ? c.nops : 1 ) / 2;
+                sc.est_len = 12 * unsigned( c.threads ) * unsigned( c.nops > 0 ? c.nops : 1 );
                 run_one( id.str(), c, prog, sc, "pct" );
             }
             else if ( args.mode == "mixed" ) {
                 if ( k % 2 ) {
                     sc.mode = M_PCT;
                     sc.pct_depth = 1 + unsigned( r.below( 3 ));
-                    sc.est_len = 60 * unsigned( c.threads ) * unsigned( c.nops > 0 ? c.nops : 1 ) / 2;
+                    sc.est_len = 12 * unsigned( c.threads ) * unsigned( c.nops > 0 ? c.nops : 1 );
                     run_one( id.str(), c, prog, sc, "pct" );
                 }
                 else {
